@@ -634,4 +634,187 @@ theorem foundGo_sorted (F : FEnv) (original translated : List (List Char)) (rest
                 · intro p hp
                   exact (List.mem_filter.mp hp).2
 
+
+/-! ## split then join; where the text of a hit comes from -/
+
+theorem splitGo_ne_nil (sep s : List Char) (k : Nat) (cur : List Char) : splitGo sep s k cur ≠ [] := by
+  induction s generalizing k cur with
+  | nil => simp [splitGo]
+  | cons c rest ih =>
+    cases k with
+    | succ k => simp only [splitGo]; exact ih _ _
+    | zero => simp only [splitGo]; split <;> simp [ih]
+
+theorem pyJoin_cons (sep x : List Char) (xs : List (List Char)) (h : xs ≠ []) : pyJoin sep (x :: xs) = x ++ sep ++ pyJoin sep xs := by
+  cases xs with
+  | nil => exact absurd rfl h
+  | cons y ys => rfl
+
+/-- skip mode drops exactly `k` characters -/
+theorem splitGo_skip (sep t r : List Char) (cur : List Char) : splitGo sep (t ++ r) t.length cur = splitGo sep r 0 cur := by
+  induction t with
+  | nil => rfl
+  | cons c t ih => simp only [List.cons_append, List.length_cons, splitGo]; exact ih
+
+theorem splitGo_join (sep : List Char) (hsep : sep ≠ []) (n : Nat) : ∀ (s cur : List Char), s.length ≤ n →
+    pyJoin sep (splitGo sep s 0 cur) = cur.reverse ++ s := by
+  induction n with
+  | zero =>
+    intro s cur hs
+    have : s = [] := List.eq_nil_of_length_eq_zero (by omega)
+    subst this
+    simp [splitGo, pyJoin]
+  | succ n ih =>
+    intro s cur hs
+    cases s with
+    | nil => simp [splitGo, pyJoin]
+    | cons c rest =>
+      simp only [splitGo]
+      split
+      · rename_i hp
+        obtain ⟨r, hr⟩ := List.isPrefixOf_iff_prefix.mp hp
+        cases sep with
+        | nil => exact absurd rfl hsep
+        | cons c' st =>
+          simp only [List.cons_append, List.cons.injEq] at hr
+          obtain ⟨rfl, hr⟩ := hr
+          subst hr
+          have hl : (c' :: st).length - 1 = st.length := by simp
+          rw [hl, splitGo_skip, pyJoin_cons _ _ _ (splitGo_ne_nil _ _ _ _)]
+          have := ih r [] (by simp only [List.length_cons, List.length_append] at hs; omega)
+          rw [this]
+          simp
+      · have := ih rest (c :: cur) (by simp only [List.length_cons] at hs; omega)
+        rw [this]
+        simp
+
+/-- **split then join is the identity**: the pieces `s.split(sep)` returns, joined by `sep`, are `s` — so every piece (and every group of
+    consecutive pieces joined by `sep`) is a contiguous part of `s`, in order -/
+theorem pyJoin_pySplit (s sep : List Char) (hsep : sep ≠ []) : pyJoin sep (pySplit s sep) = s := by
+  have := splitGo_join sep hsep s.length s [] (Nat.le_refl _)
+  simpa [pySplit] using this
+
+/-- where the text of a hit comes from: the whole original chunk `ci` (stripped), or the piece `pj` of one of the candidate splits of that chunk -/
+def HitFrom (toParse original : List (List Char)) (h : Hit) : Prop :=
+  ∃ item oi, toParse[h.ci]? = some item ∧ original[h.ci]? = some oi ∧
+    (h.sub = pyStrip oi strip1 ∨
+     ∃ tr og piece, (tr, og) ∈ splitIfNotParsed item oi ∧ og[h.pj]? = some piece ∧ h.sub = pyStrip piece strip2)
+
+theorem idxC_some (l : List (List Char)) (i : Nat) (x : List Char) (h : idxC l i = .ok x) : l[i]? = some x := by
+  unfold idxC at h
+  split at h
+  · injection h with h; subst h; assumption
+  · cases h
+
+theorem parseSplit_from (gdd : Gdd) (need : Bool) (s2 : List Char) (tr og : List (List Char))
+    (rest : List (List Char)) (j : Nat) (acc : List Piece) (rb : DateId) (r : List Piece × DateId)
+    (hacc : ∀ x ∈ acc, ∃ piece, og[x.idx]? = some piece ∧ x.2.2.1 = pyStrip piece s2)
+    (h : parseSplit gdd need s2 tr og rest j acc rb = .ok r) :
+    ∀ x ∈ r.1, ∃ piece, og[x.idx]? = some piece ∧ x.2.2.1 = pyStrip piece s2 := by
+  induction rest generalizing j acc rb with
+  | nil =>
+    simp only [parseSplit] at h; injection h with h; subst h
+    intro x hx; exact hacc x (List.mem_reverse.mp hx)
+  | cons p rest ih =>
+    unfold parseSplit at h
+    split at h
+    · exact ih (j + 1) acc rb hacc h
+    · cases e1 : idxC tr j with
+      | error e => simp only [e1] at h; cases h
+      | ok tj =>
+        cases e2 : idxC og j with
+        | error e => simp only [e1, e2] at h; cases h
+        | ok oj =>
+          simp only [e1, e2] at h
+          refine ih (j + 1) _ _ ?_ h
+          intro x hx
+          simp only [List.mem_cons] at hx
+          rcases hx with rfl | hx
+          · exact ⟨oj, idxC_some _ _ _ e2, rfl⟩
+          · exact hacc x hx
+
+theorem parseSplits_from (F : FEnv) (splits : List (List (List Char) × List (List Char))) (rb : DateId)
+    (r : List (List Piece) × DateId) (h : parseSplits F splits rb = .ok r) :
+    ∀ ps ∈ r.1, ∃ tr og, (tr, og) ∈ splits ∧ ∀ x ∈ ps, ∃ piece, og[x.idx]? = some piece ∧ x.2.2.1 = pyStrip piece strip2 := by
+  induction splits generalizing rb r with
+  | nil => simp only [parseSplits] at h; injection h with h; subst h; simp
+  | cons p rest ih =>
+    obtain ⟨tr, og⟩ := p
+    unfold parseSplits at h
+    cases e1 : parseSplit F.gdd F.needRb strip2 tr og tr 0 [] rb with
+    | error e => simp only [e1] at h; cases h
+    | ok r1 =>
+      obtain ⟨ps, rb'⟩ := r1
+      simp only [e1] at h
+      cases e2 : parseSplits F rest rb' with
+      | error e => simp only [e2] at h; cases h
+      | ok r2 =>
+        obtain ⟨pss, rb''⟩ := r2
+        simp only [e2] at h
+        injection h with h; subst h
+        intro q hq
+        simp only [List.mem_cons] at hq
+        rcases hq with rfl | hq
+        · exact ⟨tr, og, List.mem_cons_self, parseSplit_from _ _ _ _ _ _ _ _ _ _ (by simp) e1⟩
+        · obtain ⟨tr', og', hm, hx⟩ := ih rb' _ e2 q hq
+          exact ⟨tr', og', List.mem_cons_of_mem _ hm, hx⟩
+
+theorem foundGo_from (F : FEnv) (original translated toParse : List (List Char)) (rest : List (List Char)) (i : Nat)
+    (hsuf : toParse.drop i = rest)
+    (parsed : List (DateId × Bool)) (hits : List Hit) (rb : DateId) (r : List Hit)
+    (hinv : ∀ x ∈ hits, HitFrom toParse original x) (h : foundGo F original translated rest i parsed hits rb = .ok r) :
+    ∀ x ∈ r, HitFrom toParse original x := by
+  induction rest generalizing i parsed hits rb with
+  | nil =>
+    simp only [foundGo] at h; injection h with h; subst h
+    intro x hx; exact hinv x (List.mem_reverse.mp hx)
+  | cons item rest ih =>
+    have hitem : toParse[i]? = some item := by
+      have : (toParse.drop i)[0]? = some item := by rw [hsuf]; rfl
+      simpa using this
+    have hsuf' : toParse.drop (i + 1) = rest := by
+      have : (toParse.drop i).drop 1 = rest := by rw [hsuf]; rfl
+      simpa [List.drop_drop, Nat.add_comm] using this
+    unfold foundGo at h
+    split at h
+    · exact ih (i + 1) hsuf' _ _ _ hinv h
+    · cases e1 : idxC translated i with
+      | error e => simp only [e1] at h; cases h
+      | ok ti =>
+        cases e2 : idxC original i with
+        | error e => simp only [e1, e2] at h; split at h <;> cases h
+        | ok oi =>
+          have hoi := idxC_some _ _ _ e2
+          simp only [e1, e2] at h
+          split at h
+          · refine ih (i + 1) hsuf' _ _ _ ?_ h
+            intro x hx
+            simp only [List.mem_cons] at hx
+            rcases hx with rfl | hx
+            · exact ⟨item, oi, hitem, hoi, Or.inl rfl⟩
+            · exact hinv x hx
+          · split at h
+            · exact ih (i + 1) hsuf' _ _ _ hinv h
+            · cases e3 : parseSplits F (splitIfNotParsed item oi) (parseItem F.gdd rb item ti parsed F.needRb).2.2 with
+              | error e => simp only [e3] at h; cases h
+              | ok r3 =>
+                obtain ⟨pss, rb2⟩ := r3
+                simp only [e3] at h
+                refine ih (i + 1) hsuf' _ _ _ ?_ h
+                intro x hx
+                simp only [List.mem_append, List.mem_reverse, List.mem_map] at hx
+                rcases hx with ⟨p, hp, rfl⟩ | hx
+                · have hp' := (List.mem_filter.mp hp).1
+                  -- p belongs to the chosen candidate split
+                  have hbest : ∃ ps ∈ pss, p ∈ ps := by
+                    rw [List.getD_eq_getElem?_getD] at hp'
+                    cases eg : pss[argmin (pss.map (ratingOf F))]? with
+                    | none => rw [eg] at hp'; simp at hp'
+                    | some ps => rw [eg] at hp'; exact ⟨ps, List.mem_of_getElem? eg, by simpa using hp'⟩
+                  obtain ⟨ps, hps, hpp⟩ := hbest
+                  obtain ⟨tr, og, hm, hx⟩ := parseSplits_from F _ _ _ e3 ps hps
+                  obtain ⟨piece, hpc, hsub⟩ := hx p hpp
+                  exact ⟨item, oi, hitem, hoi, Or.inr ⟨tr, og, piece, hm, hpc, hsub⟩⟩
+                · exact hinv x hx
+
 end DP.Search
